@@ -69,3 +69,42 @@ Proof. reflexivity. Qed.
 
 Lemma refine_s2k_count c : gen_s2k_count c = s2k_count c.
 Proof. reflexivity. Qed.
+
+(* Header.parse (pgpy/packet/types.py), regenerated: the format bit, the length-type bits, the condition under which a length
+   field follows, and the width stored for a packet read without one.  The first octet comes out of a bytearray, so it is an octet. *)
+Definition octets256 : list Z := map Z.of_nat (seq 0 256).
+Lemma lenfmt_sweep : forallb (fun o => (gen_hdr_lenfmt o =? 0) || (gen_hdr_lenfmt o =? 1)) octets256 = true.
+Proof. vm_compute. reflexivity. Qed.
+Lemma hdr_lenfmt_bit p0 : 0 <= p0 < 256 -> gen_hdr_lenfmt p0 = 0 \/ gen_hdr_lenfmt p0 = 1.
+Proof.
+  intros H. assert (In p0 octets256) as Hin.
+  { unfold octets256. apply in_map_iff. exists (Z.to_nat p0). split; [lia|]. apply in_seq. lia. }
+  pose proof (proj1 (forallb_forall _ octets256) lenfmt_sweep p0 Hin) as K. cbv beta in K.
+  apply orb_prop in K. destruct K as [K | K]; apply Z.eqb_eq in K; auto.
+Qed.
+
+Lemma refine_header_parse p0 rest : 0 <= p0 < 256 ->
+  header_parse (p0 :: rest) =
+  let lenfmt := gen_hdr_lenfmt p0 in
+  let tag := gen_tag_of_octet lenfmt p0 in
+  let llen := if lenfmt =? 0 then match gen_llen_of_code (gen_hdr_llen_code p0) with Some l => l | None => 0 end else 1 in
+  if gen_hdr_has_length lenfmt llen then
+    if lenfmt =? 1 then
+      match new_len rest with
+      | None => None
+      | Some (l, r) => Some ({| h_lenfmt := 1; h_tag := tag; h_llen := 1; h_len := l |}, r)
+      end
+    else let '(l, r) := old_len llen rest in Some ({| h_lenfmt := 0; h_tag := tag; h_llen := llen; h_len := l |}, r)
+  else Some ({| h_lenfmt := 0; h_tag := tag; h_llen := gen_hdr_indet_llen; h_len := Z.of_nat (length rest) |}, rest).
+Proof.
+  intros Hp. cbv zeta. unfold header_parse, gen_hdr_has_length, gen_hdr_indet_llen.
+  change (Z.shiftr (Z.land p0 64) 6) with (gen_hdr_lenfmt p0).
+  change (gen_tag_of_octet (gen_hdr_lenfmt p0) p0) with (tag_of_octet (gen_hdr_lenfmt p0) p0).
+  assert (match gen_llen_of_code (gen_hdr_llen_code p0) with Some l => l | None => 0 end = llen_of_code (Z.land p0 3)) as ->.
+  { unfold gen_llen_of_code, llen_of_code, gen_hdr_llen_code.
+    destruct (Z.land p0 3 =? 0); [reflexivity|]. destruct (Z.land p0 3 =? 1); [reflexivity|].
+    destruct (Z.land p0 3 =? 2); [reflexivity|]. destruct (Z.land p0 3 =? 3); reflexivity. }
+  destruct (hdr_lenfmt_bit p0 Hp) as [-> | ->]; cbn [Z.eqb andb orb].
+  - rewrite orb_false_r. destruct (llen_of_code (Z.land p0 3) >? 0); reflexivity.
+  - reflexivity.
+Qed.
